@@ -239,6 +239,78 @@ def loadInl (files : Files) (name : Name) (cls : Kind) (c : Cache) : Res (List N
       | none => .err .syntaxErr
       | some _ => prepT files (prepFuel files) [name] name c
 
+/-! ## the loader after a preparation, whether or not it succeeded
+
+`Template._prepare_self` assigns `_stream` / `_prepared` only after `_prepare` has run to its end, and a
+template loaded inside it is prepared (and kept by the loader) before the outer preparation goes on.  So a
+preparation that raises part-way (a statically named target that is not a well-formed template, a target
+of the wrong class) leaves the loader with every template that was prepared *inside* it up to that point,
+and without the templates on the stack of the failing one.  `prepN/prepL/prepT` drop the cache on an error;
+`pcN/pcL/pcT` are the same traversal returning the cache in every case (sub-results from `prepN/prepL`). -/
+
+/-- the loader's cache after preparing another template (at lower fuel), success or failure -/
+abbrev PCJ := List Name → Name → Cache → Cache
+
+mutual
+def pcN (files : Files) (J : PJ) (JC : PCJ) (inl : List Name) : Node → Cache → Cache
+  | .text _, c => c
+  | .var _, c => c
+  | .call _, c => c
+  | .select, c => c
+  | .elem _ b, c => pcL files J JC inl b c
+  | .cond _ b, c => pcL files J JC inl b c
+  | .loop _ _ b, c => pcL files J JC inl b c
+  | .defn _ b, c => pcL files J JC inl b c
+  | .matchT _ b, c => pcL files J JC inl b c
+  | .inlined b, c => pcL files J JC inl b c
+  | .include (.dyn _) _ _ fb _, c => pcL files J JC inl fb c
+  | .include (.static h) cls _ fb pos, c =>
+      match resolve pos h with
+      | none => c
+      | some name =>
+        match files.find name with
+        | none => pcL files J JC inl fb c
+        | some f =>
+          if f.kind ≠ cls then c
+          else match f.body with
+            | none => c                       -- the target does not parse: the loader does not keep it
+            | some _ => if name ∈ inl then pcL files J JC inl fb c else JC (name :: inl) name c
+termination_by structural n => n
+def pcL (files : Files) (J : PJ) (JC : PCJ) (inl : List Name) : List Node → Cache → Cache
+  | [], c => c
+  | n :: ns, c =>
+    match prepN files J inl n c with
+    | .ok r => pcL files J JC inl ns r.2
+    | _ => pcN files J JC inl n c
+termination_by structural l => l
+end
+
+/-- the cache after `tmpl._prepare_self(inlined)`: on success the template is remembered on top of what was
+prepared inside it; on failure only the latter stays -/
+def pcT (files : Files) : Nat → PCJ
+  | 0, _, _, c => c
+  | f + 1, inl, name, c =>
+    match c.lookup name with
+    | some _ => c
+    | none =>
+      match files.find name with
+      | some ⟨_, some body⟩ =>
+        (match prepL files (prepT files f) inl body c with
+         | .ok r => (name, r.1) :: r.2
+         | _ => pcL files (prepT files f) (pcT files f) inl body c)
+      | _ => c
+
+/-- the loader's cache of prepared templates after `loader.load(name, cls=…).stream` with `auto_reload`
+off, whether it returned or raised -/
+def loadInlC (files : Files) (name : Name) (cls : Kind) (c : Cache) : Cache :=
+  match files.find name with
+  | none => c
+  | some f =>
+    if f.kind ≠ cls then c
+    else match f.body with
+      | none => c
+      | some _ => pcT files (prepFuel files) [name] name c
+
 /-! ## rendering (`_flatten` → `_match` → `_include` as one big step) -/
 
 /-- the match templates that still apply: indices `lo ≤ i`, `i < hi` (`start` / `end` of `_match`);
@@ -612,7 +684,7 @@ def logItems (k : St → R) (lk : St → List Load) (x : Name) : List Value → 
        | _ => [])
 
 mutual
-/-- the templates loaded (found) while rendering a node, in order, whether or not the rendering succeeds -/
+/-- the templates loaded (found; also when their preparation raised) while rendering a node, in order, whether or not the rendering succeeds -/
 def logN (m : Mode) (files : Files) (J : RJ) (L : LJ) (rng : Rng) : Node → St → List Load
   | .text _, _ => []
   | .var _, _ => []
@@ -651,7 +723,7 @@ def logN (m : Mode) (files : Files) (J : RJ) (L : LJ) (rng : Rng) : Node → St 
           match loadT m files name cls st with
           | .ok (body, st1) => (name, cls) :: L (.ofKind cls) body st1
           | .err .notFound => if hasFb then logL m files J L rng.fresh fb st else []
-          | _ => [])
+          | _ => [(name, cls)])         -- a load that raised (preparation failed part-way) still happened
      | _ => [])
   | .inlined body, st => L rng body st
 termination_by structural n => n
@@ -669,13 +741,14 @@ def logR (m : Mode) (files : Files) : Nat → LJ
   | 0, _, _, _ => []
   | f + 1, rng, ns, st => logL m files (render m files f) (logR m files f) rng ns st
 
-/-- the loader's cache of prepared templates after these loads (a load that fails leaves it alone) -/
+/-- the loader's cache of prepared templates after these loads (a load that raises leaves what was
+prepared inside it: `loadInlC`) -/
 def replayLoads (files : Files) : Cache → List Load → Cache
   | c, [] => c
   | c, l :: ls =>
     match loadInl files l.1 l.2 c with
     | .ok r => replayLoads files r.2 ls
-    | _ => replayLoads files c ls
+    | _ => replayLoads files (loadInlC files l.1 l.2 c) ls
 
 /-- the cache a failed render leaves behind: the entry as loaded, then every template loaded on the way -/
 def cacheAfterFail (m : Mode) (files : Files) (fuel : Nat) (c : Cache) (q : Req) : Cache :=
@@ -685,7 +758,7 @@ def cacheAfterFail (m : Mode) (files : Files) (fuel : Nat) (c : Cache) (q : Req)
     match loadT m files q.1 q.2.1 { St.init q.2.2 with cache := c } with
     | .ok (body, st1) =>
       replayLoads files st1.cache (logL m files (render m files fuel) (logR m files fuel) (.ofKind q.2.1) body st1)
-    | _ => c
+    | _ => loadInlC files q.1 q.2.1 c
 
 /-- `renderOn` with the loader state after a failure as the code leaves it -/
 def renderOnF (m : Mode) (files : Files) (fuel : Nat) (c : Cache) (q : Req) : Res (List Ev) × Cache :=
@@ -755,7 +828,7 @@ def zoneTargetOk (files : Files) (T : List Name) (pos h : List Char) (hasFb : Bo
     match files.find name with
     | none => !hasFb || winfreeL T fb
     | some f => match f.body with
-      | none => false
+      | none => true             -- not a template: loading it raises (ill-formed files are excluded by `fileOk`, not here)
       | some b => winfreeL T b
 
 mutual
@@ -823,6 +896,83 @@ def fileOk (T : List Name) (files : Files) (f : File) : Bool :=
 
 def inH (T : List Name) (files : Files) : Bool :=
   files.all fun d => d.all fun e => fileOk T files e.2
+
+/-- `fileOk` without the demand that the file is a well-formed template: an ill-formed file has no
+stream to speak about -/
+def fileOkW (T : List Name) (files : Files) (f : File) : Bool :=
+  match f.body with
+  | none => true
+  | some b => tagsOkL T b && zoneFreeL files T false b && clsOkL files b &&
+      (match f.kind with | .text => textualL b | .markup => true)
+
+/-- the hypothesis `inH` minus "every file is well-formed" -/
+def inHW (T : List Name) (files : Files) : Bool :=
+  files.all fun d => d.all fun e => fileOkW T files e.2
+
+/-! ### the hypothesis of `runtime = specification` for file sets with match templates
+
+The specification renders every include in place, under the window of match templates in force; a run-time
+include — statically named or expression-valued — restarts the window.  So inside a zone every include must be
+of window-independent content, and "window-independent" must exclude expression-valued includes of markup
+(`spec_restart_witness`). -/
+
+mutual
+/-- window-independent also for the specification: as `winfreeN`, and every include — an expression-valued one
+too — is of a text template (text templates are textual: no elements, no macro calls) -/
+def winfreeSN (T : List Name) : Node → Bool
+  | .text _ | .var _ | .defn _ _ | .matchT _ _ => true
+  | .call _ | .select => false
+  | .elem t b => !decide (t ∈ T) && winfreeSL T b
+  | .cond _ b | .loop _ _ b | .inlined b => winfreeSL T b
+  | .include _ cls _ fb _ => decide (cls = .text) && winfreeSL T fb
+termination_by structural n => n
+def winfreeSL (T : List Name) : List Node → Bool
+  | [] => true
+  | n :: ns => winfreeSN T n && winfreeSL T ns
+termination_by structural l => l
+end
+
+/-- a statically named include inside a zone: the target — or the fallback of a missing target — is
+window-independent (an ill-formed target raises the syntax error either way) -/
+def zoneTargetOkS (files : Files) (T : List Name) (pos h : List Char) (hasFb : Bool) (fb : List Node) : Bool :=
+  match resolve pos h with
+  | none => true            -- outside the model in both evaluators
+  | some name =>
+    match files.find name with
+    | none => !hasFb || winfreeSL T fb
+    | some f => match f.body with
+      | none => true
+      | some b => winfreeSL T b
+
+mutual
+/-- `zoneFreeN` for the specification: inside a zone no macro call, a statically named include only of
+window-independent content, an expression-valued include only of a text template with a window-independent
+fallback -/
+def zoneFreeSN (files : Files) (T : List Name) (zone : Bool) : Node → Bool
+  | .text _ | .var _ | .select => true
+  | .call _ => !zone
+  | .elem t b => zoneFreeSL files T (zone || decide (t ∈ T)) b
+  | .cond _ b | .loop _ _ b | .inlined b => zoneFreeSL files T zone b
+  | .defn _ b => zoneFreeSL files T false b
+  | .matchT _ b => zoneFreeSL files T true b
+  | .include (.static h) _ hasFb fb pos => (!zone || zoneTargetOkS files T pos h hasFb fb) && zoneFreeSL files T false fb
+  | .include (.dyn _) cls _ fb _ => (!zone || (decide (cls = .text) && winfreeSL T fb)) && zoneFreeSL files T false fb
+termination_by structural n => n
+def zoneFreeSL (files : Files) (T : List Name) (zone : Bool) : List Node → Bool
+  | [] => true
+  | n :: ns => zoneFreeSN files T zone n && zoneFreeSL files T zone ns
+termination_by structural l => l
+end
+
+def fileOkS (T : List Name) (files : Files) (f : File) : Bool :=
+  match f.body with
+  | none => true            -- both evaluators raise the syntax error when it is loaded
+  | some b => tagsOkL T b && zoneFreeSL files T false b &&
+      (match f.kind with | .text => textualL b | .markup => true)
+
+/-- the hypothesis of `runtime_eq_spec_zones_partial` -/
+def inHS (T : List Name) (files : Files) : Bool :=
+  files.all fun d => d.all fun e => fileOkS T files e.2
 
 mutual
 def matchTagsN : Node → List Name
